@@ -92,6 +92,10 @@ theorem Owned.micro {j0 jo : JobObj} {sp s s' : Sys} (h : Owned j0 s) (hu : jo.u
     rcases apiUpdateJobStatus_spec s jo { jo with job := (sync sp jo).2.1 } with hs | ⟨c, _, _, hs⟩
     · exact h.frame hs
     · exact h.of_same hs.pods hs.static.podCache hs.podEvs
+  | updStatusOn s1 hs1 hs hok =>
+    rcases apiUpdateJobStatus_spec s { jo with rv := updatedRv s jo } { jo with job := (sync sp jo).2.1 } with hs | ⟨c, _, _, hs⟩
+    · exact h.frame hs
+    · exact h.of_same hs.pods hs.static.podCache hs.podEvs
 
 theorem Owned.micros {j0 jo : JobObj} {sp s s' : Sys} (h : Owned j0 s) (hu : jo.uid = j0.uid)
     (hm : Micros jo sp s s') : Owned j0 s' := by
